@@ -54,7 +54,7 @@ def generate(prop, seed, tier):
         spec['nts']['U'] = {'type': []}
     pres = [build.random_presentation(spec, g, allow_rename=False, allow_domperm=False, via=('api',)) for _ in range(2)]
     hist = {'first_rules': sorted(g.sample(range(len(spec['rules'])), g.randrange(0, len(spec['rules']) + 1))),
-            'new_start': g.random() < 0.4, 'ops': [g.choice(['add_rule', 'set_start', 'query', 'edit_rhs']) for _ in range(g.randrange(1, 5))],
+            'new_start': g.random() < 0.4, 'ops': [g.choice(['add_rule', 'set_start', 'query', 'edit_rhs', 'remove_rhs_edge', 'label_without_edge']) for _ in range(g.randrange(1, 6))],
             'choices': [g.randrange(1 << 16) for _ in range(8)]}
     return {'engine': 'sccsim', 'prop': prop, 'seed': seed, 'n': n, 'edges': edges, 'orders': orders, 'naming': naming,
             'spec': spec, 'pres': pres, 'hist': hist}
@@ -294,6 +294,19 @@ def run_history(F, U, SP, case, c, log):
                     nt, att = cands[ch[(k + 3) % 8] % len(cands)]
                     r.rhs.add_edge(F.Edge(nt, att))
                     c.inc('hist.edit_rhs')
+        elif op == 'remove_rhs_edge':
+            # a right-hand side loses a nonterminal edge (its label stays in the graph's own label table)
+            cands = [(r, e) for r in fgg.all_rules() for e in r.rhs.edges() if e.label.is_nonterminal]
+            if cands:
+                r, e = cands[ch[k % 8] % len(cands)]
+                r.rhs.remove_edge(e)
+                c.inc('hist.remove_rhs_edge')
+        elif op == 'label_without_edge':
+            rules = fgg.all_rules()
+            nts = list(fgg.nonterminals())
+            if rules and nts:
+                rules[ch[k % 8] % len(rules)].rhs.add_edge_label(nts[ch[(k + 1) % 8] % len(nts)])
+                c.inc('hist.label_without_edge')
         else:
             c.inc('hist.query')
         check_ntgraph(F, U, fgg, None, B, c)
